@@ -324,3 +324,93 @@ def corpus_to_file(files, path, optimize=0, max_units=1500, sources=None):
     st["events"] = len(evs)
     _write(evs, path)
     return st
+
+
+# --------------------------------------------------------------------------- C15: producers and consumers
+
+
+def _canon_text(doc):
+    from .api import canon_json
+
+    return json.dumps(canon_json(doc), sort_keys=True, allow_nan=False)
+
+
+def produce(path, files=(), sources=(), terms=(), max_units=800):
+    """documents of this interpreter: one line {id, raw, norm} per code object / carrier"""
+    from code_data import CodeData
+
+    n = 0
+    with open(path, "w") as fh:
+        def emit(id_, cd):
+            nonlocal n
+            try:
+                raw = cd.to_json_data()
+                norm = cd.normalize().to_json_data()
+                fh.write(json.dumps({"id": id_, "producer": VER, "raw": raw, "norm": norm}, allow_nan=False) + "\n")
+                n += 1
+            except BaseException:  # noqa
+                pass
+
+        tops = []
+        for fn in files:
+            try:
+                with open(fn, "rb") as f:
+                    tops.append((fn, compile(f.read(), fn, "exec", dont_inherit=True)))
+            except Exception:
+                pass
+        for s in sources:
+            try:
+                tops.append((s["id"], compile(s["src"], "<p>", s.get("mode", "exec"), dont_inherit=True)))
+            except Exception:
+                pass
+        for fn, top in tops:
+            for p, c in cpy.all_codes(top):
+                if len(c.co_code) // 2 > max_units or sum(1 for _ in cpy.all_codes(c)) > 4:
+                    continue
+                try:
+                    emit("c:%s:%s:%s" % (VER, fn, p), CodeData.from_code(c))
+                except BaseException:  # noqa
+                    pass
+        for tid, term in terms:
+            v = term_value(term)
+            for pos in CONST_POS + (STR_POS if type(v) is str else []):
+                try:
+                    emit("t:%s:%s:%s" % (VER, tid, pos), carrier(v, pos))
+                except BaseException:  # noqa
+                    pass
+    return n
+
+
+def consume(path_in, path_out, runs):
+    """runs: [{ops: [...]}]; every document of path_in through every operation sequence"""
+    from code_data import CodeData
+
+    evs = []
+    for line in open(path_in):
+        d = json.loads(line)
+        raw_t = _canon_text(d["raw"])
+        norm_t = _canon_text(d["norm"])
+        for ri, run in enumerate(runs):
+            e = {"id": "%s>%s:%d" % (d["id"], VER, ri), "producer": d["producer"], "consumer": VER, "ops": run["ops"],
+                 "same_raw": False, "same_norm": False, "exc": ""}
+            try:
+                cur = json.loads(json.dumps(d["raw"]))
+                for op in run["ops"]:
+                    if op == "Load":
+                        cur = CodeData.from_json_data(cur)
+                    elif op == "Normalize":
+                        cur = cur.normalize()
+                    elif op == "Dump":
+                        cur = cur.to_json_data()
+                    elif op == "Reload":
+                        cur = json.loads(json.dumps(cur, allow_nan=False))
+                t = _canon_text(cur)
+                e["same_raw"] = t == raw_t
+                e["same_norm"] = t == norm_t
+            except BaseException as ex:  # noqa
+                e["exc"] = "%s: %s" % (type(ex).__name__, str(ex)[:80])
+            evs.append(e)
+    with open(path_out, "w") as fh:
+        for e in evs:
+            fh.write(json.dumps(e, separators=(",", ":")) + "\n")
+    return len(evs)
